@@ -417,7 +417,9 @@ def judge_line(line, answer, train_seqs, props, traced=False):
         t = op.split()
         dg, stale, exc = parse_obs(ob)
         if exc is not None:
-            bad("C14", i, "exception escaped", None, exc)
+            # an exception leaving a tick ends the clock thread: no further indication is sent, no further burst transmitted
+            bad(("C14", "C12", "C03") if t[0] == "T" else "C14", i,
+                "exception escaped" + (" from the clock tick (the clock thread dies)" if t[0] == "T" else ""), None, exc)
             return result()
         try:
             if t[0] == "C":
